@@ -125,7 +125,9 @@ type stmt struct {
 	Name   string
 }
 
-func (k kind) isDML() bool { return k <= kDelA || k == kInsB || k == kInsBNull || k == kDelB }
+func (k kind) isDML() bool {
+	return k <= kDelA || k == kInsB || k == kInsBNull || k == kDelB || k == kCopy
+}
 func (k kind) isQuery() bool {
 	return k == kSelA || k == kCntA || k == kSelB || k == kCntB || k == kBadSel
 }
